@@ -206,3 +206,48 @@ func ZZ_C04_DifferentTypesInSequence() {
 		zzMarshalVsRef(v1, "")
 	}
 }
+
+// C03 lemma at encoder level: whatever sizes the members of a CHF record
+// have, the header the encoder writes for an element announces exactly its
+// number of content octets - for EVERY length up to 65535 + slack and every
+// tag the records use (universal and context class, tag numbers < 2^14). The
+// file-level harnesses of C03 cover size classes only; an element of exactly
+// 256 (or any other particular number of) octets is covered here.
+//
+//gosx:property=C03 tier=quick unwind=12
+func ZZ_C03_EveryElementLengthIsAnnouncedExactly() {
+	class := vx.Int("class")
+	vx.Assume(class == ClassUniversal || class == ClassContextSpecific)
+	tag := vx.Uint64("tag")
+	vx.Assume(tag < 1<<14)
+	ln := vx.Int64("len")
+	vx.Assume(ln >= 0 && ln < 1<<17)
+	got := appendTagAndLen(make([]byte, 8)[:0], tagAndLen{class: class, constructed: vx.Bool("constructed"), tagNumber: tag, len: ln})
+	// independent reading of the length octets (X.690 8.1.3)
+	i := 1
+	if tag >= 31 {
+		for i < len(got) && got[i]&0x80 != 0 {
+			i++
+		}
+		i++
+	}
+	vx.Assert("header has length octets", i < len(got))
+	if i >= len(got) {
+		return
+	}
+	var announced int64
+	if got[i] < 0x80 {
+		announced = int64(got[i])
+		vx.Assert("short form ends the header", i+1 == len(got))
+	} else {
+		n := int(got[i] & 0x7f)
+		vx.Assert("long form carries its length octets", n >= 1 && i+1+n == len(got))
+		if n < 1 || i+1+n != len(got) {
+			return
+		}
+		for k := 0; k < n; k++ {
+			announced = announced<<8 | int64(got[i+1+k])
+		}
+	}
+	vx.Assert("the announced length is the number of content octets", announced == ln)
+}
